@@ -230,6 +230,8 @@ fn record_cmd(args: &[String]) -> i32 {
         match (driver, g.as_str()) {
             ("signet", "G1") => record::drive_signet::<Bls12381G1Impl>(&mut log, seed, events, mix),
             ("signet", "G2") => record::drive_signet::<Bls12381G2Impl>(&mut log, seed.wrapping_add(1), events, mix),
+            ("proto", "G1") => record::drive_proto::<Bls12381G1Impl>(&mut log, seed, events),
+            ("proto", "G2") => record::drive_proto::<Bls12381G2Impl>(&mut log, seed.wrapping_add(1), events),
             ("constants", "G1") => record::drive_constants::<Bls12381G1Impl>(&mut log),
             ("constants", "G2") => record::drive_constants::<Bls12381G2Impl>(&mut log),
             ("fuzz", "G1") => codecs::drive_fuzz::<Bls12381G1Impl>(&mut log, seed, events, &Tables::load(arg(args, "--tables").expect("--tables")), "G1"),
